@@ -187,16 +187,23 @@ Definition template_records (arraybit : bool) (t : template) : bytes :=
   flat_map (fun m => le_enc 2 (member_info_word m) ++ le_enc 2 (member_type_word arraybit m)
                      ++ le_enc 4 (m_off m)) (t_members t).
 Definition template_member_count (t : template) : Z := Z.of_nat (length (t_members t)).
-(* object definition size in 32-bit words: the definition (records + names) plus 23 bytes of
-   object overhead, rounded up — unless the project states the controller's own figure *)
+(* object definition size in 32-bit words — unless the project states the controller's own figure.
+   Calibrated against the real-controller uploads in /repo/tests/offline/*.json (19 templates):
+   the controller's figure is  ceil((k * members + names + 20) / 4)  with k = 8 for the predefined
+   types that name themselves without ";" (STRING: 15, CONTROL: 38 exactly) and about 10 for UDTs
+   and module-defined types (their ";n..." tail is not in the fixtures; within 1-2 words).
+   Template Read serves the records, the names, and NUL padding up to defsize*4 - 21 bytes (the
+   built-in STRING needs 39 = 15*4 - 21 bytes; the Data Access manual's "- 23" would cut it). *)
+Definition template_core_len (t : template) : Z :=
+  8 * template_member_count t + Z.of_nat (length (template_names t)).
 Definition template_defsize (t : template) : Z :=
   if t_defsize t =? 0
-  then (8 * template_member_count t + Z.of_nat (length (template_names t)) + 23 + 3) / 4
+  then ((match t_tail t with None => 8 | Some _ => 10 end) * template_member_count t
+        + Z.of_nat (length (template_names t)) + 20 + 3) / 4
   else t_defsize t.
-(* what Template Read serves: records, names, NUL padding up to defsize*4 - 23 *)
 Definition template_blob (arraybit : bool) (t : template) : bytes :=
   let core := template_records arraybit t ++ template_names t in
-  core ++ zeros (Z.to_nat (template_defsize t * 4 - 23) - length core).
+  core ++ zeros (Z.to_nat (template_defsize t * 4 - 21) - length core).
 
 (* ------------------------------------------------------------------ visibility of names *)
 Definition txt_ZZ : text := [90;90;90;90;90;90;90;90;90;90].       (* "ZZZZZZZZZZ" *)
@@ -283,20 +290,28 @@ Fixpoint members_disjoint (p : project) (ms : list member) : bool :=
   end.
 
 (* templates may only use templates defined EARLIER in the list (no recursion) *)
-Fixpoint templates_ok (p : project) (earlier : list template) (ts : list template) : bool :=
+Definition template_ok (earlier : list template) (t : template) : bool :=
+  let pe := mkProject earlier [] in
+  (0 <? t_id t) && (t_id t <? 4096) && (0 <=? t_handle t) && (t_handle t <? 65536)
+  && (0 <? t_size t) && (0 <=? t_defsize t)
+  && negb (match t_name t with [] => true | _ => false end)
+  && negb (existsb (fun e => (t_id e =? t_id t) || name_eqb (t_name e) (t_name t)) earlier)
+  && forallb (member_ok pe t) (t_members t)
+  && members_disjoint pe (t_members t)
+  && distinct_by name_eqb (map m_name (t_members t))
+  && (template_core_len t <=? template_defsize t * 4 - 20).
+
+Fixpoint templates_ok (earlier : list template) (ts : list template) : bool :=
   match ts with
   | [] => true
-  | t :: r =>
-      let pe := mkProject earlier [] in
-      (0 <? t_id t) && (t_id t <? 4096) && (0 <=? t_handle t) && (t_handle t <? 65536)
-      && (0 <? t_size t) && (0 <=? t_defsize t)
-      && negb (match t_name t with [] => true | _ => false end)
-      && negb (existsb (fun e => (t_id e =? t_id t) || name_eqb (t_name e) (t_name t)) earlier)
-      && forallb (member_ok pe t) (t_members t)
-      && members_disjoint pe (t_members t)
-      && distinct_by name_eqb (map m_name (t_members t))
-      && (Z.of_nat (length (template_records true t ++ template_names t)) <=? template_defsize t * 4 - 23)
-      && templates_ok p (earlier ++ [t]) r
+  | t :: r => template_ok earlier t && templates_ok (earlier ++ [t]) r
+  end.
+
+(* diagnostics: the ids of the templates that fail [template_ok] *)
+Fixpoint bad_templates (earlier : list template) (ts : list template) : list Z :=
+  match ts with
+  | [] => []
+  | t :: r => (if template_ok earlier t then [] else [t_id t]) ++ bad_templates (earlier ++ [t]) r
   end.
 
 Definition scope_ok (p : project) (sc : scope) : bool :=
@@ -329,7 +344,7 @@ Definition tag_key_eqb (a b : tagdef) : bool :=
   scope_eqb (g_scope a) (g_scope b) && name_eqb (g_name a) (g_name b).
 
 Definition wf_project (p : project) : bool :=
-  templates_ok p [] (p_templates p)
+  templates_ok [] (p_templates p)
   && forallb (tag_ok p) (p_tags p)
   && distinct_by Z.eqb (map g_inst (p_tags p))           (* instance ids distinct over ALL scopes *)
   && distinct_by tag_key_eqb (p_tags p).
